@@ -120,3 +120,13 @@ PROPS["C07"] = {
     "level_text": "Machine-checked Lean 4 theorems: retry_after_spec / retry_after_none / retry_after_le_day / retry_after_grammar (the header value -> min(N,86400) s exactly for visible-ASCII decimal u64), poll_after_response (after every authenticated response of any status the context holds it), no_response_no_change, poll_change_announced (change => ProtocolStateChange, three context writes, commit, before anything else) and poll_same_silent, poll_latest_wins (over any sequence of exchanges), poll_restart / poll_restart_absent (loadCtx reads back the persisted encoding); tied to state_machine.rs by the per-unit differential run of the real StateMachine.",
     "level_note": "Trusted: Lean kernel; the hand-written state-machine model; harness (scripted environment, executor) and diff. Request-kind independence is by construction (one model function serves update checks, event reports and pings) and is exercised by the stream.",
 }
+
+PROPS["C06"] = {
+    "lean_modules": ["Omaha.Props.C06"],
+    "streams": sm_stream([r"H uc", [r"H (ev|ping)", ["resp:", "fail:"]], r"T arm for:", r"M responsetime", r"M reqspercheck", r"E result"]),
+    "rule": SM_RULE + "; projection: update-check requests in full (session / request id indices, payload, outcome), the existence and outcome of every event report and ping, every wait_for timer, the response-time and requests-per-check metrics, the check result; back-off jitter is observed from the armed durations and handed to the model, which accepts it only inside [0, 1000) ms",
+    "trusted_extra": SM_TRUSTED + ["randomness of the back-off draw is a property of rand: observed, not proved"],
+    "assumptions": [],
+    "level_text": "Machine-checked Lean 4 theorems: attemptLoop_le / attempts_le_three (at most three update-check requests per check, by induction on the loop), ucCount_omahaRequest_other and report_single_shot (event reports and pings are one exchange at most and never add update-check requests), retry_iff (a further attempt iff transient failure, attempt < 3, no poll interval in force), never_retried, outcome_classification, giveUp_third, backoff_window and backoff_bases (2^(k-1) s +/- 500 ms), attempts_range / requests_per_check_range (the reported count is the number of attempts, 1..3); tied to state_machine.rs by the per-unit differential run.",
+    "level_note": "Trusted: Lean kernel; the hand-written state-machine model; harness and diff. That each attempt has exactly one UpdateCheckResponseTime metric is checked by the correspondence (the model emits it under the same monotonic-clock condition as the code), not stated as a theorem.",
+}
